@@ -116,6 +116,9 @@ func (s *simState) Nilness(v ssa.Value) int8 {
 // SetNil records nil-ness of v on this path.
 func (s *simState) SetNil(v ssa.Value, n int8) { s.nl[s.Resolve(v)] = n }
 
+// Assume records that the boolean value c holds (or does not hold) from here on.
+func (s *simState) Assume(c ssa.Value, val bool) { s.refine(c, val) }
+
 // Tag / HasTag: caller-defined marks carried along the path.
 func (s *simState) Tag(t string)         { s.tags[t] = true }
 func (s *simState) Untag(t string)       { delete(s.tags, t) }
